@@ -6,8 +6,9 @@
        inverse-CDF sampling from the exact conditional probabilities;
      - C20_theta: the left vector after a draw is the row of the prefix chain at the drawn bits;
      - C20_born_core: a measured site of the probability train is conj(psi) (x) psi (C01 matmul, C02 diag models), and for a
-       right-orthonormal state core the site summed out maps vec(I) to vec(I) -- the tail hypothesis of C20_marginal holds
-       for right-orthonormal states when all later sites are measured;
+       right-orthonormal state core the site summed out maps vec(I) to vec(I);
+     - C20_born_tail: hence for a right-orthonormal state whose later sites are all measured, the whole tail of the
+       probability train, every site summed out, is vec(I): the hypothesis of C20_marginal is discharged in that case;
      - C20_counts: the counts of np.unique add up to the number of samples (relative frequencies sum to one).
    PARTIAL: the tail hypothesis in the presence of unmeasured sites (squeeze absorbs their transfer matrices) is covered by
    correspondence and side check; convergence of the frequencies is the law of large numbers (6-sigma check, not a theorem). *)
@@ -35,6 +36,13 @@ Theorem C20_born_core (R : cring) (c : core R) a1 a2 : nd c = 1%nat -> right_iso
   sum (md c) (fun x => sum (rr c * rr c) (fun b => g (born c) (a1 * rl c + a2)%nat x 0%nat b * vecI (rr c * rr c) b)) = delta a1 a2.
 Proof. exact (born_core_tail c a1 a2). Qed.
 Print Assumptions C20_born_core.
+
+Theorem C20_born_tail (R : cring) (cs : list (core R)) b1 b2 :
+  Forall (fun c => nd c = 1%nat) cs -> Forall right_iso cs -> linked cs 1%nat -> Forall (fun c => (0 < rl c)%nat) cs ->
+  (b1 < rl_of cs 1)%nat -> (b2 < rl_of cs 1)%nat ->
+  tail_weight (map born cs) (b1 * rl_of cs 1 + b2)%nat = delta b1 b2.
+Proof. exact (born_tail_weight cs b1 b2). Qed.
+Print Assumptions C20_born_tail.
 
 Theorem C20_counts (rows : list (list nat)) : total (unique_counts rows) = length rows.
 Proof. exact (counts_total rows). Qed.
